@@ -1,26 +1,35 @@
 """C01 — XML/SOAP wire fidelity: sent values reach the function, results reach the client.
 
-Three parts (DESIGN.md section 6, C01):
-  * proof obligations: coq/Props/C01.v over the models coq/Wire/Xml.v, coq/Wire/Soap.v;
-  * correspondence: generated universes and values through the real XmlDocument
-    (get_object_as_xml / from_element and the ServerBase pipeline) against the model,
-    tree for tree and value for value, plus a stream of mutated documents;
-  * direct oracle: generated services through the full pipeline for
-    {XmlDocument, Soap11, Soap12} x validator {None, 'soft', 'lxml'}, requests built by an
-    independent schema-directed encoder (thorough: also zeep from the WSDL), responses read by
-    an independent decoder and by an in-process Spyne client."""
-import os, sys, json, copy, datetime, decimal
+Parts (DESIGN.md section 6, C01):
+  * proof obligations: coq/Props/C01.v (shared model Wire/Xml.v), coq/Props/C01_x.v (C01/XmlX.v: leaf
+    types, XmlData) and coq/Props/C01_call.v (C01/Call.v: the call level);
+  * correspondences (model vs implementation, evaluated by vm_compute):
+      xml_enc / xml_dec     Wire/Xml.v      get_object_as_xml / XmlDocument.from_element        (c01_wire.py)
+      xmlx_enc / xmlx_dec   C01/XmlX.v      the same on the richer universes, plus mutated documents
+      call_server           C01/Call.v      full requests through ServerBase for {XmlDocument, Soap11, Soap12}
+                                            x validator {None, soft, lxml}: call log + response tree or fault
+      call_client           C01/Call.v      the request the Spyne client writes / the value it reads back
+  * direct oracle (implementation only): generated services through WsgiApplication; requests written by an
+    independent schema-directed encoder, by zeep (from the generated WSDL, in-process transport) and by the
+    Spyne client; the arguments captured inside the user function must equal the sent ones, the response
+    must decode (independent decoder, zeep, Spyne client) to the returned value; equality per type."""
+import os, sys, json, copy
 import lib
-import universe as U
-from lib import gz, gtext, glist, gbool, gopt, gpair
+import c01x as X
+import c01_wire
+import c01z as Z
+from lib import gz, gtext, glist, gbool, gopt
 
-THEOREMS = ['C01_xml_rt', 'C01_xml_rt_spyne']
-
-XSI = 'http://www.w3.org/2001/XMLSchema-instance'
+THEOREMS = ['C01_xml_rt', 'C01_xml_rt_spyne']                                   # Props/C01.v (shared model Wire/Xml.v)
+THEOREMS_X = ['C01_xmlx_rt', 'C01_leaf_sound', 'C01_xmlx_rt_spyne']             # Props/C01_x.v (C01/XmlX.v)
+THEOREMS_CALL = ['C01_call_fidelity', 'C01_call_fidelity_spyne']                # Props/C01_call.v (C01/Call.v)
 FUEL = 40
+XSI = X.XSI
+
+EXN = {'ValueError': 'ValueError', 'TypeError': 'TypeError', 'AttributeError': 'AttributeError', 'KeyError': 'KeyError',
+       'IndexError': 'IndexError', 'AssertionError': 'AssertionError', 'OverflowError': 'OverflowError'}
 
 
-# ------------------------------------------------------------------ small helpers
 def observe(fn, *args):
     """('ok', value) | ('vfault',) | ('crash', CoqExn, PythonName)"""
     from spyne.model.fault import Fault
@@ -32,8 +41,7 @@ def observe(fn, *args):
         return ('crash', 'OtherExn', 'Fault:' + str(e.faultcode))
     except Exception as e:
         n = type(e).__name__
-        return ('crash', {'ValueError': 'ValueError', 'TypeError': 'TypeError', 'AttributeError': 'AttributeError',
-                          'KeyError': 'KeyError', 'IndexError': 'IndexError', 'AssertionError': 'AssertionError'}.get(n, 'OtherExn'), n)
+        return ('crash', EXN.get(n, 'OtherExn'), n)
 
 
 def gout(o, f):
@@ -49,147 +57,57 @@ def reparse(elt):
     return etree.fromstring(etree.tostring(elt))
 
 
-def xml_ok_text(s):
-    return all(c in '\t\n\r' or 0x20 <= ord(c) <= 0xD7FF or 0xE000 <= ord(c) <= 0xFFFD or 0x10000 <= ord(c) <= 0x10FFFF
-               for c in s)
-
-
-# ------------------------------------------------------------------ generators
-SHARED_NAMES = ['id', 'name', 'value']
-
-
-def gen_desc(rng, n_classes, namespaces=('urn:t',), **kw):
-    """universe.gen_universe plus what it never produces and C01 needs: member names shared
-    between classes (an XmlAttribute 'id' on a class and on the class of one of its members),
-    and required members"""
-    desc = U.gen_universe(rng, n_classes=n_classes, namespaces=namespaces, **kw)
-    for cid, c in enumerate(desc['classes']):
-        for f in c['fields']:
-            if rng.random() < 0.3:
-                nm = rng.choice(SHARED_NAMES)
-                # keep flattened names distinct in this class and in every subclass
-                clash = False
-                for d in U.subclasses(desc, cid):
-                    if nm in [g['name'] for g in U.flat_fields(desc, d)]:
-                        clash = True
-                p = c['parent']
-                while p is not None:
-                    if nm in [g['name'] for g in desc['classes'][p]['fields']]:
-                        clash = True
-                    p = desc['classes'][p]['parent']
-                if not clash:
-                    f['name'] = nm
-    return desc
-
-
-def field_is_multi(f):
-    return f['max'] is None or f['max'] > 1
-
-
-def gen_conformant(rng, desc, ty, depth, nullable=True):
-    """a value conforming to ty under the published schema (None only where allowed)"""
-    if nullable and rng.random() < 0.15:
-        return ('none',)
-    if ty[0] == 'prim':
-        return U.gen_leaf(rng, ty[1])
-    if ty[0] == 'arr':
-        n = 0 if depth <= 0 else rng.choice([0, 1, 2, 3])
-        return ('list', [gen_conformant(rng, desc, ty[1], depth - 1, True) for _ in range(n)])
-    cid = ty[1]
-    vals = [gen_field(rng, desc, f, depth - 1) for f in U.flat_fields(desc, cid)]
-    return ('obj', cid, vals)
-
-
-def gen_field(rng, desc, f, depth):
-    if f['kind'] == 'attr':
-        if f['min'] <= 0 and rng.random() < 0.4:
-            return ('none',)
-        return U.gen_leaf(rng, f['ty'][1])
-    shallow = depth <= 0 and f['ty'][0] != 'prim' and not (f['ty'][0] == 'arr')
-    if field_is_multi(f):
-        if f['min'] <= 0 and rng.random() < 0.2:
-            return ('none',)
-        hi = 3 if f['max'] is None else f['max']
-        lo = max(f['min'], 0)
-        n = rng.randint(lo, max(lo, hi))
-        if shallow:
-            if f['nillable']:
-                return ('list', [('none',)] * n) if n else (('none',) if f['min'] <= 0 else ('list', []))
-            n = lo
-        return ('list', [gen_conformant(rng, desc, f['ty'], depth, f['nillable']) for _ in range(n)])
-    can_none = f['min'] <= 0 or f['nillable']
-    if shallow and can_none:
-        return ('none',)
-    if can_none and rng.random() < 0.25:
-        return ('none',)
-    return gen_conformant(rng, desc, f['ty'], depth, False)
-
-
-def depth_ok(desc):
-    """every class can be instantiated within a bounded depth: no class requires itself"""
-    return True
-
-
-def norm_value(desc, ty, v):
-    """the property's identifications (Python mirror of Wire.Xml.norm): an empty unwrapped
-    sequence is None"""
-    if v[0] == 'list' and ty[0] == 'arr':
-        return ('list', [norm_value(desc, ty[1], x) for x in v[1]])
-    if v[0] == 'obj' and ty[0] == 'ref':
-        out = []
-        for f, x in zip(U.flat_fields(desc, v[1]), v[2]):
-            if f['kind'] == 'elem' and field_is_multi(f):
-                if x[0] == 'list':
-                    x = ('none',) if not x[1] else ('list', [norm_value(desc, f['ty'], y) for y in x[1]])
-            elif f['kind'] == 'elem':
-                x = norm_value(desc, f['ty'], x)
-            out.append(x)
-        return ('obj', v[1], out)
-    return v
-
-
 # ------------------------------------------------------------------ document mutations (malformed stream)
-def mutate(rng, root):
-    """one structural mutation of a parsed document; returns a description or None"""
+TEXTS = [None, '', 'abc', ' 7 ', '+5', 'true', '1', '0', 'TRUE', '1.5', '-0', '007', '2020-02-30', '2020-01-01', '12:00:00', '24:00:00',
+         '2020-01-01T00:00:00Z', '2020-01-01T10:00:00.5+05:30', 'P1D', 'PT0.5S', 'P', '-P1DT', 'YQ==', 'YQ', '*', '1e3', '99999999999999999999999999',
+         '-129', '256', '65536']
+
+
+def mutate(rng, root, leaf_only=False):
+    """one structural or lexical mutation of a parsed document; returns a description or None"""
     from lxml import etree
     elts = [e for e in root.iter() if isinstance(e.tag, str)]
     e = rng.choice(elts)
     kids = [k for k in e if isinstance(k.tag, str)]
     r = rng.random()
-    if r < 0.14 and kids:
-        k = rng.choice(kids)
-        e.remove(k)
+    if r < 0.12 and kids:
+        e.remove(rng.choice(kids))
         return 'drop child'
-    if r < 0.28 and kids:
+    if r < 0.24 and kids:
         k = rng.choice(kids)
         e.insert(rng.randrange(len(e) + 1), copy.deepcopy(k))
         return 'duplicate child'
-    if r < 0.40 and len(kids) >= 2:
+    if r < 0.32 and len(kids) >= 2:
         a, b = rng.sample(kids, 2)
         a.tag = b.tag
         return 'rename child to sibling'
-    if r < 0.50:
+    if r < 0.40:
         q = etree.QName(e)
         etree.SubElement(e, '{%s}%s' % (q.namespace, 'zz_unknown') if q.namespace else 'zz_unknown').text = 'x'
         return 'unknown child'
-    if r < 0.62 and e is not root:
+    if r < 0.52 and e is not root:
         e.set('{%s}nil' % XSI, rng.choice(['true', '1', 'false', '0', 'TRUE', '']))
         return 'xsi:nil'
-    if r < 0.70 and kids:
+    if r < 0.58 and kids:
         rng.shuffle(kids)
         for k in kids:
             e.remove(k)
         for k in kids:
             e.append(k)
         return 'shuffle children'
-    if r < 0.78 and e.attrib:
+    if r < 0.64 and e.attrib:
         del e.attrib[rng.choice(sorted(e.attrib))]
         return 'drop attribute'
-    if r < 0.84:
-        e.set(rng.choice(['zz', 'id', 'name', 'f0_0', 'f1_0']), rng.choice(['1', 'x', 'true', '']))
+    if r < 0.72 and e.attrib:
+        k = rng.choice(sorted(e.attrib))
+        if not k.startswith('{'):
+            e.set(k, rng.choice([t for t in TEXTS if t is not None]))
+            return 'change attribute'
+    if r < 0.78:
+        e.set(rng.choice(['zz', 'id', 'name', 'value', 'f0_0', 'f1_0']), rng.choice(['1', 'x', 'true', '']))
         return 'add attribute'
-    if r < 0.92 and not kids:
-        e.text = rng.choice([None, '', 'abc', ' 7 ', '+5', 'true', '1', '0', 'TRUE', '1.5'])
+    if r < 0.94 and not kids:
+        e.text = rng.choice(TEXTS)
         return 'change text'
     if len(root):   # only under the root, a complex element: array_from_element reads a comment as an item
         root.insert(rng.randrange(len(root) + 1), etree.Comment('c'))
@@ -197,42 +115,39 @@ def mutate(rng, root):
     return None
 
 
-# ------------------------------------------------------------------ correspondence 1: XmlDocument on bare objects
-IMPORTS = 'From SpyneV Require Import Base.Prelude Wire.Universe Wire.Xml C01.Leaf.\n'
+# ------------------------------------------------------------------ correspondence: XmlX on bare objects
+IMPORTS_X = 'From SpyneV Require Import C01.Univ C01.XmlX C01.LeafX C01.Call.\n'
 
 
-def g_ns(s):
-    return gtext(s or '')
-
-
-def corr_objects(check, tier):
-    """get_object_as_xml / XmlDocument.from_element against Wire.Xml.enc / dec"""
+def corr_objects_x(check, tier):
+    """get_object_as_xml / XmlDocument.from_element against XmlX.enc / dec (no Application: arrays of
+    primitives have no namespace)"""
     from lxml import etree
     from spyne.util.xml import get_object_as_xml
     from spyne.protocol.xml import XmlDocument
     rng = check.rng
-    n_univ = 14 if tier == 'quick' else 120
+    n_univ = 8 if tier == 'quick' else 60
     per_class = 4 if tier == 'quick' else 10
     prots = {False: XmlDocument(), True: XmlDocument(validator='soft')}
     for ui in range(n_univ):
-        desc = gen_desc(rng, n_classes=rng.randint(2, 6), namespaces=('urn:t', 'urn:u') if ui % 2 else ('urn:t',))
-        classes = U.build_spyne(desc)
-        imports = IMPORTS + 'Definition UU : universe := %s.\n' % U.g_universe(desc)
+        desc = X.gen_universe(rng, n_classes=rng.randint(2, 6), namespaces=('urn:t', 'urn:u') if ui % 2 else ('urn:t',))
+        classes = X.build_classes(desc)
+        imports = IMPORTS_X + 'Definition UU : universe := %s.\n' % X.g_universe(desc, classes)
         enc_cases, dec_cases = [], []
         for cid, cls in enumerate(classes):
             for _ in range(per_class):
-                v = gen_conformant(rng, desc, ('ref', cid), depth=rng.randint(1, 4), nullable=False)
-                o = U.to_native(desc, classes, v)
+                v = X.gen_value(rng, desc, ('ref', cid), depth=rng.randint(1, 4), nullable=False)
+                o = X.to_native(desc, classes, v)
                 r = observe(get_object_as_xml, o, cls)
                 if r[0] != 'ok':
-                    oracle_fail_obj(check, desc, cid, v, 'encode', 'get_object_as_xml raised %r' % (r,))
+                    obj_fail(check, desc, cid, v, 'encode', 'get_object_as_xml raised %r' % (r,))
                     continue
                 tree = reparse(r[1])
-                enc_cases.append(('(%d%%nat, %s, %s)' % (cid, U.g_val(v), U.g_xml(tree)),
+                enc_cases.append(('(%d%%nat, %s, %s)' % (cid, X.g_val(v), X.g_xml(tree)),
                                   'universe %d class %d value %r' % (ui, cid, v)))
-                check.count(('enc', json.dumps(desc, sort_keys=True), cid, repr(v)))
+                check.count(('xenc', json.dumps(desc, sort_keys=True, default=repr), cid, repr(v)))
                 docs = [(tree, 'as written')]
-                for _ in range(2 if tier == 'quick' else 4):
+                for _ in range(3 if tier == 'quick' else 5):
                     t2 = copy.deepcopy(tree)
                     what = mutate(rng, t2)
                     if what:
@@ -241,82 +156,937 @@ def corr_objects(check, tier):
                     for soft in (False, True):
                         d = observe(prots[soft].from_element, None, cls, doc)
                         if d[0] == 'ok':
-                            nv = U.from_native(desc, classes, d[1])
-                            if not U.in_universe(nv):
-                                check.mismatch('xml_dec', 'decoded value outside the universe: %r' % (nv,))
+                            nv = X.from_native(desc, classes, ('ref', cid), d[1])
+                            if not X.in_universe(nv):
+                                check.mismatch('xmlx_dec', 'decoded value outside the universe: %r from %s' % (
+                                    nv, etree.tostring(doc).decode()[:300]))
                                 continue
                             d = ('ok', nv)
-                        dec_cases.append(('(%s, %d%%nat, %s, %s)' % (gbool(soft), cid, U.g_xml(doc), gout(d, U.g_val)),
+                        dec_cases.append(('(%s, %d%%nat, %s, %s)' % (gbool(soft), cid, X.g_xml(doc), gout(d, X.g_val)),
                                           'universe %d class %d soft=%s %s: %s -> %r' % (
                                               ui, cid, soft, what, etree.tostring(doc).decode()[:300], d)))
-                        check.count(('dec', soft, etree.tostring(doc)))
-                        # direct oracle on the unmutated document: the property itself
-                        if what == 'as written':
-                            want = norm_value(desc, ('ref', cid), v)
-                            if d != ('ok', want):
-                                oracle_fail_obj(check, desc, cid, v, 'soft' if soft else 'none',
-                                                'XmlDocument(validator=%s) read %s back as %r, sent %r' % (
-                                                    'soft' if soft else None, etree.tostring(doc).decode()[:200], d, want))
-        lib.correspond(check, 'xml_enc', imports, 'nat * val * xnode',
-                       '(fun c => let \'(cid, v, t) := c in match enc spyne_leaf (cfg false None) UU %d (TRef cid) (cls_ns UU cid) '
+                        check.count(('xdec', soft, etree.tostring(doc)))
+                        if what == 'as written':          # direct oracle: the property itself on this document
+                            want = X.norm_value(desc, ('ref', cid), v)
+                            if not (d[0] == 'ok' and X.eq_value(d[1], want)):
+                                obj_fail(check, desc, cid, v, 'soft' if soft else 'none',
+                                         'XmlDocument(validator=%s) read %s back as %r, sent %r' % (
+                                             'soft' if soft else None, etree.tostring(doc).decode()[:200], d, want))
+        lib.correspond(check, 'xmlx_enc', imports, 'nat * val * xnode',
+                       '(fun c => let \'(cid, v, t) := c in match enc spyne_leaf UU %d (TRef cid) (cls_ns UU cid) '
                        '(cls_name UU cid) v with Ok e => xnode_eqb (wire e) t | _ => false end)' % FUEL, enc_cases,
-                       show='(fun c : nat * val * xnode => let \'(cid, v, t) := c in enc spyne_leaf (cfg false None) UU %d (TRef cid) '
+                       show='(fun c : nat * val * xnode => let \'(cid, v, t) := c in enc spyne_leaf UU %d (TRef cid) '
                             '(cls_ns UU cid) (cls_name UU cid) v)' % FUEL)
-        lib.correspond(check, 'xml_dec', imports, 'bool * nat * xnode * out val',
-                       '(fun c => let \'(soft, cid, t, o) := c in out_eqb val_eqb (from_element spyne_leaf (cfg soft None) UU %d '
+        lib.correspond(check, 'xmlx_dec', imports, 'bool * nat * xnode * out val',
+                       '(fun c => let \'(soft, cid, t, o) := c in out_eqb val_eqb (from_element spyne_leaf (cfg soft) UU %d '
                        '(TRef cid) t) o)' % FUEL, dec_cases,
                        show='(fun c : bool * nat * xnode * out val => let \'(soft, cid, t, o) := c in from_element spyne_leaf '
-                            '(cfg soft None) UU %d (TRef cid) t)' % FUEL)
+                            '(cfg soft) UU %d (TRef cid) t)' % FUEL)
         if ui == 0 and enc_cases:
-            check.sample({'universe': desc, 'case': enc_cases[0][1][:400]})
+            check.sample({'universe': X.jsonable(desc), 'case': enc_cases[0][1][:400]})
 
 
-def obj_key(desc, cid, v, stage):
-    """site + shape of the failing input: which kinds of member the value exercises"""
+# ------------------------------------------------------------------ the call level: shared machinery
+PROTS = ['xml', 'soap11', 'soap12']
+VALIDATORS = [None, 'soft', 'lxml']
+G_PROTO = {'xml': 'PXml', 'soap11': 'PSoap11', 'soap12': 'PSoap12'}
+G_VMODE = {None: 'ValNone', 'soft': 'ValSoft', 'lxml': 'ValLxml'}
+FCODES = {'Client.ValidationError': 'FValidation', 'Client.SchemaValidationError': 'FSchema', 'Client.SoapError': 'FSoapError',
+          'Client.ResourceNotFound': 'FNotFound', 'Server': 'FServer'}
+
+
+def prot_class(p):
+    from spyne.protocol.xml import XmlDocument
+    from spyne.protocol.soap import Soap11, Soap12
+    return {'xml': XmlDocument, 'soap11': Soap11, 'soap12': Soap12}[p]
+
+
+def gen_call(rng, desc, m, with_headers=True, header_none=True):
+    """conformant arguments, header values, the planned return value and out header of one call"""
+    if m['style'] == 'bare' and len(m['params']) == 1:
+        p = m['params'][0]
+        # the body element of a bare method is not declared nillable in the published schema
+        args = [X.gen_value(rng, desc, p['ty'], rng.randint(1, 3), nullable=False)]
+        if X.nonelike(args[0]):
+            args = [X.gen_value(rng, desc, p['ty'], 2, nullable=False)]
+            if args[0] == ('bytes', b''):
+                args = [('bytes', b'q')]
+    else:
+        args = [X.gen_field_value(rng, desc, p, rng.randint(1, 3)) for p in m['params']]
+    rets = []
+    for r in m['returns']:
+        if m['style'] == 'wrapped':
+            rets.append(X.gen_field_value(rng, desc, r, rng.randint(1, 3)))
+        else:
+            v = X.gen_value(rng, desc, r['ty'], rng.randint(1, 3), nullable=r['nillable'])
+            if X.nonelike(v) and not r['nillable']:
+                v = X.gen_value(rng, desc, r['ty'], 2, nullable=False)
+                if v == ('bytes', b''):
+                    v = ('bytes', b'q')
+            rets.append(v)
+    ret = ('none',) if not rets else (rets[0] if len(rets) == 1 else ('list', rets))
+    ih = oh = None
+    if with_headers and m['in_header'] and rng.random() < 0.85:
+        ih = [X.gen_value(rng, desc, ('ref', c), 2, nullable=header_none) for c in m['in_header']]
+    if with_headers and m['out_header'] and rng.random() < 0.85:
+        oh = [X.gen_value(rng, desc, ('ref', c), 2, nullable=False) for c in m['out_header']]   # header entries are not nillable in the schema
+    return {'args': args, 'ret': ret, 'in_header': ih, 'out_header': oh}
+
+
+def expected_call(desc, m, call):
+    """what the user function must be handed: (in_header, args) after the property's identifications"""
+    if m['style'] == 'bare' and len(m['params']) == 1:
+        args = [X.norm_value(desc, m['params'][0]['ty'], call['args'][0])]
+    else:
+        args = [X.norm_field_value(desc, p, a) for p, a in zip(m['params'], call['args'])]
+    ih = None if call['in_header'] is None else [X.norm_value(desc, ('ref', c), v) for c, v in zip(m['in_header'], call['in_header'])]
+    if ih == [('none',)]:
+        ih = None            # a single header class: ctx.in_header is the header object itself, here None
+    return ih, args
+
+
+def expected_return(desc, m, call):
+    rets = m['returns']
+    if not rets:
+        return ('none',)
+    if m['style'] == 'wrapped':
+        if len(rets) == 1:
+            return X.norm_field_value(desc, rets[0], call['ret'])
+        return ('list', [X.norm_field_value(desc, r, v) for r, v in zip(rets, call['ret'][1])])
+    return X.norm_value(desc, rets[0]['ty'], call['ret'])
+
+
+def plan_call(plan, desc, classes, m, call):
+    plan.log[:] = []
+    rets = m['returns']
+    if not rets:
+        plan.returns[m['name']] = None
+    elif len(rets) == 1:
+        plan.returns[m['name']] = X.to_native(desc, classes, call['ret'])
+    else:
+        plan.returns[m['name']] = tuple(X.to_native(desc, classes, v) for v in call['ret'][1])
+    plan.out_header[m['name']] = None if call['out_header'] is None else [X.to_native(desc, classes, v) for v in call['out_header']]
+
+
+def request_doc(rng, desc, classes, app, prot, m, call):
+    """the request as an independent schema-directed client writes it (lxml element)"""
+    from lxml import etree
+    tns = desc['tns']
+    d = X.method_descriptor(app, m['name'])
+    if m['style'] == 'bare' and len(m['params']) == 1:
+        body = X.ref_encode(desc, classes, m['params'][0]['ty'], d.in_message, tns, m['name'], call['args'][0], rng, tns)
+    else:
+        body = etree.Element('{%s}%s' % (tns, m['name']))
+        X.ref_encode_members(desc, classes, None, body, call['args'], rng, tns, fields=[(None, p) for p in m['params']],
+                             ns_of=lambda _c: tns, type_of=lambda _c, f: d.in_message._type_info[f['name']])
+    hdrs = None
+    if call['in_header'] is not None and prot != 'xml':
+        hdrs = [X.ref_encode(desc, classes, ('ref', c), classes[c], desc['classes'][c]['ns'], desc['classes'][c]['name'], v, rng, tns)
+                for c, v in zip(m['in_header'], call['in_header'])]
+    return X.soap_envelope(prot, hdrs, body), body
+
+
+def captured_log(desc, classes, svc, plan):
+    """plan.log -> [(method name, in_header neutral list or None, [neutral args])]"""
+    out = []
+    for name, ih, args in plan.log:
+        m = [x for x in svc['methods'] if x['name'] == name][0]
+        if ih is None:
+            h = None
+        elif len(m['in_header']) == 1:
+            h = [X.from_native(desc, classes, ('ref', m['in_header'][0]), ih)]
+        else:
+            h = [X.from_native(desc, classes, ('ref', c), x) for c, x in zip(m['in_header'], ih)]
+        if m['style'] == 'bare' and len(m['params']) == 1:
+            a = [X.from_native(desc, classes, m['params'][0]['ty'], args[0])] if len(args) == 1 else [('other', 'arity', repr(args)[:80])]
+        elif len(args) != len(m['params']):
+            a = [('other', 'arity', repr(args)[:80])]
+        else:
+            a = [X.field_from_native(desc, classes, p, x) for p, x in zip(m['params'], args)]
+        out.append((name, h, a))
+    return out
+
+
+def server_parse(raw):
+    """the tree the server's parser builds (XmlDocument.parser_kwargs: comments and PIs removed)"""
+    from lxml import etree
+    return etree.fromstring(raw, parser=etree.XMLParser(remove_comments=True, remove_pis=True, resolve_entities=False))
+
+
+def drive_server(app, body_bytes):
+    """('return', response bytes) | ('fault', faultcode) | ('crash', CoqExn, PythonName); the call log is in the plan"""
+    from spyne.server import ServerBase
+    from spyne import MethodContext
+    try:
+        srv = ServerBase(app)
+        ctx = MethodContext(srv, MethodContext.SERVER)
+        ctx.in_string = [body_bytes]
+        ctx = srv.generate_contexts(ctx)[0]
+        if ctx.in_error is not None:
+            return ('fault', ctx.in_error.faultcode, str(ctx.in_error.faultstring)[:300])
+        srv.get_in_object(ctx)
+        if ctx.in_error is not None:
+            return ('fault', ctx.in_error.faultcode, str(ctx.in_error.faultstring)[:300])
+        srv.get_out_object(ctx)
+        if ctx.out_error is not None:
+            return ('fault', ctx.out_error.faultcode, str(ctx.out_error.faultstring)[:300])
+        srv.get_out_string(ctx)
+        return ('return', b''.join(ctx.out_string))
+    except Exception as e:
+        n = type(e).__name__
+        return ('crash', EXN.get(n, 'OtherExn'), n)
+
+
+def g_log(log):
+    return glist(['(%s, %s, %s)' % (gtext(n), gopt(h, lambda hh: glist([X.g_val(v) for v in hh])), glist([X.g_val(v) for v in a]))
+                  for n, h, a in log])
+
+
+def log_in_universe(log):
+    return all((h is None or all(X.in_universe(v) for v in h)) and all(X.in_universe(v) for v in a) for _, h, a in log)
+
+
+def g_ufun(call):
+    return '(fun _ _ _ => (%s, %s))' % (X.g_val(call['ret']), gopt(call['out_header'], lambda hh: glist([X.g_val(v) for v in hh])))
+
+
+class World(object):
+    """one generated universe + service, and one Application per (protocol, validator)"""
+
+    def __init__(self, rng, model_only=True, header_ns_tns=False, n_classes=None, n_methods=None, desc=None, svc=None):
+        if desc is None:
+            desc = X.gen_universe(rng, n_classes=n_classes or rng.randint(2, 5), model_only=model_only)
+            svc = X.gen_service(rng, desc, n_methods=n_methods or rng.randint(3, 5), model_only=model_only,
+                                header_ns_tns=header_ns_tns)
+        self.desc, self.svc = desc, svc
+        self.classes = X.build_classes(self.desc)
+        self.apps = {}
+
+    def app(self, prot, val):
+        if (prot, val) not in self.apps:
+            plan = X.Plan()
+            app, _ = X.build_app(self.desc, self.svc, prot_class(prot), val, plan, classes=self.classes)
+            self.apps[(prot, val)] = (app, plan)
+        return self.apps[(prot, val)]
+
+    def coq_defs(self, app):
+        return ('Definition UU : universe := %s.\nDefinition SV : service := %s.\n'
+                % (X.g_universe(self.desc, self.classes), X.g_service(self.desc, self.svc, app)))
+
+
+# ------------------------------------------------------------------ correspondence: full requests through ServerBase
+def corr_calls(check, tier):
+    from lxml import etree
+    from spyne.server.wsgi import WsgiApplication
+    rng = check.rng
+    n_worlds = 8 if tier == 'quick' else 40
+    per_method = 2 if tier == 'quick' else 5
+    for wi in range(n_worlds):
+        w = World(rng)
+        groups = {}                 # Coq definitions of the world -> [server cases, client request cases, client response cases]
+        for prot in PROTS:
+            for val in VALIDATORS:
+                app, plan = w.app(prot, val)
+                # one model file per world: the class table and the service are the same for its nine applications
+                # (were they ever to differ, the cases are kept apart by their definitions)
+                cases, req_cases, resp_cases = groups.setdefault(w.coq_defs(app), ([], [], []))
+                pv = '%s, %s, ' % (G_PROTO[prot], G_VMODE[val])
+                sc = Z.make_spyne_client(app, WsgiApplication(app), prot)
+                for mi, m in enumerate(w.svc['methods']):
+                    for _ in range(per_method):
+                        call = gen_call(rng, w.desc, m)
+                        if m['style'] == 'wrapped':
+                            client_corr_case(check, w, app, sc, plan, prot, val, mi, m, call, req_cases, resp_cases)
+                        doc, body = request_doc(rng, w.desc, w.classes, app, prot, m, call)
+                        docs = [(doc, 'as written')]
+                        for _ in range(2):
+                            d2 = copy.deepcopy(doc)
+                            b2 = d2 if prot == 'xml' else d2.find('{*}Body')[0]
+                            what = mutate(rng, b2)
+                            if what:
+                                docs.append((d2, what))
+                        if prot != 'xml' and rng.random() < 0.3:
+                            d2 = copy.deepcopy(doc)
+                            what = mutate_envelope(rng, d2)
+                            if what:
+                                docs.append((d2, what))
+                        for dd, what in docs:
+                            raw = etree.tostring(dd)
+                            plan_call(plan, w.desc, w.classes, m, call)
+                            obs = drive_server(app, raw)
+                            log = captured_log(w.desc, w.classes, w.svc, plan)
+                            if not log_in_universe(log):
+                                check.mismatch('call_server', 'captured arguments outside the universe: %r for %s' % (log, raw.decode()[:300]))
+                                continue
+                            sv = True
+                            if obs[0] == 'return':
+                                g_obs = '(RReturn %s %s)' % (g_log(log), X.g_xml(etree.fromstring(obs[1])))
+                            elif obs[0] == 'fault':
+                                if obs[1] not in FCODES:
+                                    check.mismatch('call_server', 'unexpected fault %r for %s' % (obs[1], raw.decode()[:300]))
+                                    continue
+                                sv = obs[1] != 'Client.SchemaValidationError'
+                                g_obs = '(RFault %s %s)' % (g_log(log), FCODES[obs[1]])
+                            else:
+                                g_obs = '(RCrash %s %s)' % (g_log(log), obs[1])
+                            cases.append(('(%s%s, %s, %s, %s)' % (pv, gbool(sv), X.g_xml(server_parse(raw)), g_ufun(call), g_obs),
+                                          'world %d %s/%s %s [%s] %s: %s -> %r log %r' % (
+                                              wi, prot, val, m['name'], m['style'], what, raw.decode()[:400], obs[:2] if obs[0] != 'return' else obs[1][:300], log)))
+                            check.count(('call', prot, val, raw))
+                            if what == 'as written':
+                                if oracle_server_case(check, w, prot, val, m, call, raw, obs, log, 'ref-encoder'):
+                                    oracle_response_case(check, w, app, prot, val, m, call, raw, obs[1], 'ref-decoder')
+        for defs, (cases, req_cases, resp_cases) in groups.items():
+            imports = IMPORTS_X + defs
+            lib.correspond(check, 'call_server', imports, 'proto * vmode * bool * xnode * ufun * rsp',
+                           '(fun c => let \'(p, v, sv, doc, f, o) := c in rsp_eqb (rsp_wire (server spyne_leaf p v (fun _ => sv) UU SV %d f doc)) o)'
+                           % FUEL, cases,
+                           show='(fun c : proto * vmode * bool * xnode * ufun * rsp => let \'(p, v, sv, doc, f, o) := c in server spyne_leaf p v '
+                                '(fun _ => sv) UU SV %d f doc)' % FUEL)
+            lib.correspond(check, 'call_client_request', imports, 'proto * vmode * nat * option (list val) * list val * xnode',
+                           '(fun c => let \'(p, v, i, hv, args, t) := c in match nth_error (s_methods SV) i with Some m => '
+                           'match client_request spyne_leaf p UU SV %d i m hv args with Ok e => xnode_eqb (wire e) t | _ => false end '
+                           '| None => false end)' % FUEL, req_cases,
+                           show='(fun c : proto * vmode * nat * option (list val) * list val * xnode => let \'(p, v, i, hv, args, t) := c in '
+                                'match nth_error (s_methods SV) i with Some m => client_request spyne_leaf p UU SV %d i m hv args '
+                                '| None => Crash OtherExn end)' % FUEL)
+            lib.correspond(check, 'call_client_response', imports, 'proto * vmode * nat * xnode * out (val * option (list val))',
+                           '(fun c => let \'(p, v, i, t, o) := c in match nth_error (s_methods SV) i with Some m => '
+                           'out_eqb (fun a b => val_eqb (fst a) (fst b) && olist_eqb (snd a) (snd b)) '
+                           '(client_response spyne_leaf p v UU SV %d i m t) o | None => false end)' % FUEL, resp_cases,
+                           show='(fun c : proto * vmode * nat * xnode * out (val * option (list val)) => let \'(p, v, i, t, o) := c in '
+                                'match nth_error (s_methods SV) i with Some m => client_response spyne_leaf p v UU SV %d i m t '
+                                '| None => Crash OtherExn end)' % FUEL)
+        if wi == 0:
+            check.sample({'service': X.jsonable(w.svc)})
+
+
+def client_corr_case(check, w, app, sc, plan, prot, val, mi, m, call, req_cases, resp_cases):
+    """the Spyne client (RemoteProcedureBase.get_out_object / get_out_string / get_in_object) against
+    Call.client_request / client_response: the request it writes and what it reads from the response"""
+    from lxml import etree
+    desc, classes = w.desc, w.classes
+    d = X.method_descriptor(app, m['name'])
+    plan_call(plan, desc, classes, m, call)
+    hdr = None
+    if call['in_header'] is not None and m['in_header']:
+        hdr = [X.to_native(desc, classes, v) for v in call['in_header']]
+    sc.set_options(out_header=hdr)
+    proc = getattr(sc.service, m['name'])
+    from spyne.model.fault import Fault
+    try:
+        r = ('ok', proc(*[X.to_native(desc, classes, a) for a in call['args']]))
+    except Fault as e:
+        r = ('vfault',) if e.faultcode == 'Client.ValidationError' else ('crash', 'OtherExn', 'Fault:' + str(e.faultcode))
+    except Exception as e:
+        r = ('crash', EXN.get(type(e).__name__, 'OtherExn'), type(e).__name__)
+    sent = getattr(proc, 'sent', None)
+    if sent is None:
+        check.mismatch('call_client_request', 'the Spyne client wrote no request for %s %r: %r' % (m['name'], call['args'], r))
+        return
+    g_hv = gopt(call['in_header'] if hdr is not None else None, lambda hh: glist([X.g_val(v) for v in hh]))
+    pv = '%s, %s, ' % (G_PROTO[prot], G_VMODE[val])
+    req_cases.append(('(%s%d%%nat, %s, %s, %s)' % (pv, mi, g_hv, glist([X.g_val(a) for a in call['args']]), X.g_xml(etree.fromstring(sent))),
+                      '%s/%s %s args %r hdr %r -> %s' % (prot, val, m['name'], call['args'], call['in_header'], sent.decode()[:400])))
+    check.count(('client_req', prot, val, sent))
+    received = getattr(proc, 'received', None)
+    if received is None or not received.strip():
+        return
+    try:
+        rtree = etree.fromstring(received)
+    except etree.XMLSyntaxError:
+        return
+    if r[0] == 'ok':
+        rets = m['returns']
+        keys = list(d.out_message._type_info.keys())
+        if not rets:
+            got = ('none',)
+        elif len(rets) == 1:
+            got = X.field_from_native(desc, classes, rets[0], r[1])
+        else:
+            got = ('list', [X.field_from_native(desc, classes, rr, getattr(r[1], k, None)) for rr, k in zip(rets, keys)])
+        ih = proc.ctx.in_header
+        if ih is None:
+            got_h = None
+        elif len(m['out_header']) == 1:
+            got_h = [X.from_native(desc, classes, ('ref', m['out_header'][0]), ih)]
+        else:
+            got_h = [X.from_native(desc, classes, ('ref', c), x) for c, x in zip(m['out_header'], ih)]
+        if not X.in_universe(got) or (got_h is not None and not all(X.in_universe(v) for v in got_h)):
+            check.mismatch('call_client_response', 'the Spyne client returned a value outside the universe: %r / %r' % (got, got_h))
+            return
+        g_o = '(Ok (%s, %s))' % (X.g_val(got), gopt(got_h, lambda hh: glist([X.g_val(v) for v in hh])))
+    elif r[0] == 'vfault':
+        g_o = 'VFault'
+    else:
+        if r[2].startswith('Fault:'):
+            return                     # the server answered with a fault: not a response document of this method
+        g_o = '(Crash %s)' % r[1]
+    resp_cases.append(('(%s%d%%nat, %s, %s)' % (pv, mi, X.g_xml(rtree), g_o),
+                       '%s/%s %s response %s -> %r' % (prot, val, m['name'], received.decode()[:400], r[:2])))
+    check.count(('client_resp', prot, val, received))
+
+
+def mutate_envelope(rng, env):
+    from lxml import etree
+    r = rng.random()
+    kids = list(env)
+    if r < 0.3:
+        h = env.find('{*}Header')
+        if h is not None:
+            env.remove(h)
+            return 'drop Header'
+    if r < 0.5:
+        h = env.find('{*}Header')
+        if h is not None and len(h):
+            h.append(copy.deepcopy(h[0]))
+            return 'duplicate header entry'
+    if r < 0.7:
+        h = env.find('{*}Header')
+        if h is not None and len(h) >= 2:
+            a = h[0]
+            h.remove(a)
+            h.append(a)
+            return 'reorder header entries'
+    if r < 0.85:
+        b = env.find('{*}Body')
+        if b is not None and len(b):
+            b[0].tag = etree.QName(b[0]).namespace and '{%s}%s' % (etree.QName(b[0]).namespace, 'noSuchMethod') or 'noSuchMethod'
+            return 'unknown method'
+    env.tag = '{urn:not-soap}Envelope'
+    return 'foreign envelope'
+
+
+def call_key(site, prot, val, m, call, desc):
+    shapes = []
+    for p, a in zip(m['params'], call['args']):
+        shapes.append(shape_of(desc, p['ty'], a) or a[0])
+    return 'C01|call|%s|%s|%s|%s|%s' % (site, prot, val, m['style'], ';'.join(shapes)[:120])
+
+
+def call_replay(w, prot, val, m, call, extra=None):
+    r = {'kind': 'call', 'universe': X.jsonable(w.desc), 'service': X.jsonable(w.svc), 'protocol': prot, 'validator': val,
+         'method': m['name'], 'call': X.jsonable(call)}
+    if extra:
+        r.update(extra)
+    return r
+
+
+def oracle_server_case(check, w, prot, val, m, call, raw, obs, log, client):
+    """the property, server half, on one conformant request: exactly one invocation with equal values"""
+    ih, args = expected_call(w.desc, m, call)
+    if prot == 'xml':
+        ih = None
+    want = [(m['name'], ih, args)]
+    ok = obs[0] == 'return' and len(log) == 1 and log[0][0] == m['name'] \
+        and ((log[0][1] is None) == (ih is None)) \
+        and (ih is None or (len(ih) == len(log[0][1]) and all(X.eq_value(a, b) for a, b in zip(log[0][1], ih)))) \
+        and len(log[0][2]) == len(args) and all(X.eq_value(a, b) for a, b in zip(log[0][2], args))
+    if not ok:
+        check.fail(call_key('server-' + client, prot, val, m, call, w.desc),
+                   '%s validator=%s %s [%s]: request %s gave %r with call log %r; expected exactly one call %r' % (
+                       prot, val, m['name'], m['style'], raw.decode()[:400], obs if obs[0] != 'return' else 'a response', log, want),
+                   call_replay(w, prot, val, m, call, {'request': raw.decode('utf-8', 'replace'), 'client': client}))
+        return False
+    return True
+
+
+def shape_of(desc, ty, v):
+    """which kinds of member / value a failing input exercises (for specific finding keys)"""
     shape = set()
 
     def walk(ty, x):
         if x[0] == 'obj':
-            for f, y in zip(U.flat_fields(desc, x[1]), x[2]):
-                tag = f['kind'] + ('*' if field_is_multi(f) else '') + ('!' if f['min'] > 0 else '')
+            for f, y in zip(X.flat_fields(desc, x[1]), x[2]):
+                tag = f['kind'] + ('*' if X.is_multi(f) else '') + ('!' if f['min'] > 0 else '')
                 if y[0] == 'none':
                     shape.add(tag + ':none')
                 elif y[0] == 'list' and not y[1]:
                     shape.add(tag + ':empty')
-                elif y[0] == 'text' and y[1] == '':
-                    shape.add(tag + ':emptytext')
-                if y[0] == 'list':
+                elif y[0] in ('text', 'bytes') and len(y[1]) == 0:
+                    shape.add(tag + ':empty' + y[0])
+                if f['kind'] == 'elem' and X.is_multi(f) and y[0] == 'list':
                     for z in y[1]:
-                        walk(f['ty'][1] if f['ty'][0] == 'arr' else f['ty'], z)
+                        walk(f['ty'], z)
                 else:
                     walk(f['ty'], y)
-        elif x[0] == 'list':
+        elif x[0] == 'list' and ty[0] == 'arr':
             for z in x[1]:
-                walk(ty, z)
-    walk(('ref', cid), v)
-    return 'C01|object|%s|%s' % (stage, ','.join(sorted(shape))[:120])
+                walk(ty[1], z)
+        elif x[0] not in ('none', 'list'):
+            shape.add('leaf:' + x[0])
+    walk(ty, v)
+    return ','.join(sorted(shape))[:140]
 
 
-def oracle_fail_obj(check, desc, cid, v, stage, what):
-    check.fail(obj_key(desc, cid, v, stage), what, {'kind': 'object', 'universe': desc, 'cid': cid, 'value': v, 'stage': stage})
+def obj_fail(check, desc, cid, v, stage, what):
+    check.fail('C01|object|%s|%s' % (stage, shape_of(desc, ('ref', cid), v)), what,
+               {'kind': 'object', 'universe': X.jsonable(desc), 'cid': cid, 'value': X.jsonable(v), 'stage': stage})
 
 
 def run(check):
     tier = check.tier
-    check.rule = ('generated type universes (2-6 classes, inheritance, XmlAttribute members, wrapped arrays, '
-                  'max_occurs>1 members, shared member names) with schema-conformant values; a case is distinct by '
-                  '(operation, universe, class, value or document)')
-    check.trusted = list(lib.COMMON_TRUSTED)
-    check.assumptions = []
-    check.regen(['numtypes'])
+    check.rule = ('generated type universes (2-6 classes, inheritance, XmlAttribute / XmlData members, wrapped arrays, '
+                  'max_occurs>1 members, customised integer types, 8 primitive kinds in the model and Decimal/Double/Uuid/'
+                  'customised Unicode in the oracle, member names shared between classes) and generated services (wrapped / '
+                  'bare / out_bare, 0-3 parameters, 0-3 return values, header classes in and out) with schema-conformant '
+                  'values incl. boundary values, plus a stream of structurally and lexically mutated documents; a case is '
+                  'distinct by (operation, protocol, validator, universe, class or method, value or document)')
+    check.trusted = list(lib.COMMON_TRUSTED) + [
+        'lxml/libxml2 (parsing, serialisation, namespace handling, XSD validation): the models work on parsed trees; the one '
+        'identification a serialise/parse cycle makes on Spyne-built trees (text "" -> no text) is the function [wire]',
+        'harness/c01x.py: the rendering of one description as Spyne classes, as Gallina terms and for the reference codec; '
+        'array member names / namespaces, customised type names and Attributes tables are COPIED from the classes that exist '
+        '(observed, not modelled: naming is C06/C07)',
+        'the oracle\'s independent decoders: harness/c01x.py ref_decode/ref_parse_leaf (XSD literals written from the XML Schema '
+        'datatypes spec), zeep 4.3 (request writer from the WSDL; its schema objects parse the response), the Spyne client',
+        'the equality notions of the property as coded in c01x.eq_value / norm_value (numeric value, instant plus UTC offset, '
+        'exact bytes, exact text; absent optional element = None, empty unwrapped sequence = None, empty byte string = None, '
+        'and the one XML forces in addition: an XmlData member holding the empty string = None)',
+    ]
+    check.assumptions = [
+        'leaf_sound L (C01_xmlx_rt, C01_call_fidelity): the primitive text codec is lossless on its declared domain; discharged for '
+        'Spyne\'s codecs by C01_leaf_sound from the C08 theorems (integer family, Unicode, Boolean, ByteArray/base64, Date, Time, '
+        'DateTime, Duration); any other primitive (Decimal, Double, Uuid, ...) enters the theorems as STok, a codec assumed to be '
+        'the identity on its lexical form, and is covered by the oracle only',
+        'validator=lxml: libxml2 accepts the request body the client writes (hypothesis of C01_call_fidelity; observed on every '
+        'conformant request of the run; the modelled subset of XSD validation is C06)',
+        'wf_universe: distinct flattened member names, XmlAttribute/XmlData wrap single-valued primitives, a class with XmlData has no '
+        'element members and no relatives (xs:simpleContent), header classes have distinct qualified names, method names are '
+        'distinct, the service does not live in the SOAP envelope namespace',
+        'not modelled (never generated by the correspondences): polymorphism / xsi:type (C16), Attributes.default, sub_name/sub_ns on '
+        'members, href/id multi-reference SOAP encoding, AnyXml/AnyDict/AnyHtml/File/Enum members, MTOM, out_stream serialisation, '
+        'faults as responses (C09), XML-level hostility (C10/C17)',
+        'zeep limitations that narrow what is compared through it: it reads an empty element as None whatever its type, ignores '
+        'xsi:nil on complex-typed elements, cannot write xsd.Nil items in sequences or absent simple content, cannot parse a reply '
+        'whose body element has a simple type (those replies are read by the reference decoder), encodes a bare base64Binary '
+        'argument twice, prints years < 1000 unpadded',
+    ]
+    check.extra['violations_not_listed'] = 0
+    orig_fail = check.fail
+
+    def limited_fail(key, what, replay):
+        # an unrepaired tree produces hundreds of distinct failing shapes: list the first 40, count the rest
+        if key not in check.known_keys and len(check.violations) >= 40 and not any(k == key for k, _, _ in check.violations):
+            check.extra['violations_not_listed'] += 1
+            return True
+        return orig_fail(key, what, replay)
+    check.fail = limited_fail
+    check.regen(['numtypes', 'xmlwire'])
     check.check_sources()
     check.prove('Props.C01', THEOREMS)
-    corr_objects(check, tier)
+    check.prove('Props.C01_x', THEOREMS_X)
+    check.prove('Props.C01_call', THEOREMS_CALL)
+    import time
+    t0 = time.time()
+    for name, fn in (('wire objects', c01_wire.corr_objects), ('x objects', corr_objects_x), ('calls', corr_calls),
+                     ('client oracles', oracle_clients)):
+        fn(check, tier)
+        check.log('C01 phase %s: %.1fs' % (name, time.time() - t0))
+        t0 = time.time()
     lib.flush_correspondences(check)
+    check.log('C01 phase model evaluation (coqc): %.1fs' % (time.time() - t0))
     return check.finish()
 
 
 def replay(check, path):
+    """re-run exactly the stored case against the tree under test and report what it does now"""
+    import random
+    from lxml import etree
     r = json.load(open(path))
-    print(json.dumps(r, indent=1)[:3000])
-    return 0
+    rp = r.get('replay', {})
+    print('replaying %s: %s' % (r.get('key'), (r.get('what') or '')[:600]))
+    kind = rp.get('kind')
+    rng = random.Random(r.get('seed', 0))
+    if kind == 'object':
+        from spyne.util.xml import get_object_as_xml
+        from spyne.protocol.xml import XmlDocument
+        desc, cid, v = X.unjson(rp['universe']), rp['cid'], X.unjson(rp['value'])
+        classes = X.build_classes(desc)
+        o = observe(get_object_as_xml, X.to_native(desc, classes, v), classes[cid])
+        if o[0] != 'ok':
+            obj_fail(check, desc, cid, v, 'encode', 'get_object_as_xml raised %r' % (o,))
+        else:
+            tree = reparse(o[1])
+            want = X.norm_value(desc, ('ref', cid), v)
+            for soft in (False, True):
+                d = observe(XmlDocument(validator='soft' if soft else None).from_element, None, classes[cid], tree)
+                if d[0] == 'ok':
+                    d = ('ok', X.from_native(desc, classes, ('ref', cid), d[1]))
+                print('validator=%s: %s -> %r (sent %r)' % ('soft' if soft else None, etree.tostring(tree).decode()[:400], d, want))
+                if not (d[0] == 'ok' and X.eq_value(d[1], want)):
+                    obj_fail(check, desc, cid, v, 'soft' if soft else 'none', 'XmlDocument(validator=%s) read %s back as %r, sent %r' % (
+                        'soft' if soft else None, etree.tostring(tree).decode()[:200], d, want))
+    elif kind == 'call':
+        from spyne.server.wsgi import WsgiApplication
+        w = World(rng, desc=X.unjson(rp['universe']), svc=X.unjson(rp['service']))
+        prot, val = rp['protocol'], rp['validator']
+        m = [x for x in w.svc['methods'] if x['name'] == rp['method']][0]
+        call = X.unjson(rp['call'])
+        app, plan = w.app(prot, val)
+        wapp = WsgiApplication(app)
+        client = rp.get('client', '') or rp.get('decoder', '')
+        wsgi_case(check, rng, w, app, wapp, plan, prot, val, m, call)
+        if 'zeep' in client and prot != 'xml':
+            zeep_case(check, w, app, Z.ZeepSide(app, wapp), plan, prot, val, m, call)
+        if 'spyne' in client and m['style'] == 'wrapped':
+            spyne_client_case(check, w, app, Z.make_spyne_client(app, wapp, prot), plan, prot, val, m, call)
+        print('call log of the last run: %r' % (captured_log(w.desc, w.classes, w.svc, plan),))
+    elif kind == 'wsdl':
+        from spyne.server.wsgi import WsgiApplication
+        w = World(rng, desc=X.unjson(rp['universe']), svc=X.unjson(rp['service']))
+        app, plan = w.app(rp['protocol'], rp['validator'])
+        try:
+            Z.ZeepSide(app, WsgiApplication(app))
+            print('zeep loads the WSDL now')
+        except Exception as e:
+            check.fail(r['key'], 'zeep cannot load the WSDL: %r' % (e,), rp)
+    else:
+        print(json.dumps(r, indent=1)[:3000])
+        return 0
+    if not check.violations and not check.known_seen:
+        print('the stored case passes on this tree')
+    return check.finish()
+
+
+
+def decode_response(w, app, prot, m, resp_bytes):
+    """independent schema-directed reading of a response: (return value, out header list or None)"""
+    from lxml import etree
+    desc, classes, tns = w.desc, w.classes, w.desc['tns']
+    d = X.method_descriptor(app, m['name'])
+    doc = etree.fromstring(resp_bytes)
+    hdrs, body = X.soap_open(prot, doc)
+    if body is None:
+        raise X.DecodeError('no body element')
+    if body.tag != '{%s}%sResponse' % (tns, m['name']):
+        raise X.DecodeError('body element %s, expected {%s}%sResponse' % (body.tag, tns, m['name']))
+    rets = m['returns']
+    if m['style'] == 'wrapped':
+        keys = list(d.out_message._type_info.keys())
+        fields = [(None, dict(r, name=k)) for r, k in zip(rets, keys)]
+        vals = X.ref_decode_members(desc, classes, None, body, tns, fields=fields, ns_of=lambda _c: tns,
+                                    type_of=lambda _c, f: d.out_message._type_info[f['name']])
+        ret = ('none',) if not rets else (vals[0] if len(rets) == 1 else ('list', vals))
+    elif rets:
+        ret = X.ref_decode(desc, classes, rets[0]['ty'], d.out_message, body, tns, nillable=False)   # a global element, not declared nillable
+    else:
+        ret = ('none',)
+    oh = None
+    if hdrs is not None:
+        if len(hdrs) != len(m['out_header']):
+            raise X.DecodeError('%d header entries for %d declared header classes' % (len(hdrs), len(m['out_header'])))
+        oh = []
+        for c, e in zip(m['out_header'], hdrs):
+            if e.tag != '{%s}%s' % (desc['classes'][c]['ns'], desc['classes'][c]['name']):
+                raise X.DecodeError('header entry %s for class %s' % (e.tag, desc['classes'][c]['name']))
+            oh.append(X.ref_decode(desc, classes, ('ref', c), classes[c], e, tns, nillable=False))
+    return ret, oh
+
+
+def norm_decoded(desc, m, ret):
+    """the decoder's own reading normalised like the expectation (an absent / empty sequence member is None)"""
+    rets = m['returns']
+    if not rets:
+        return ret
+    if m['style'] == 'wrapped':
+        if len(rets) == 1:
+            return X.norm_field_value(desc, rets[0], ret)
+        return ('list', [X.norm_field_value(desc, r, v) for r, v in zip(rets, ret[1])])
+    return X.norm_value(desc, rets[0]['ty'], ret)
+
+
+def expected_out_header(desc, m, call, prot):
+    if prot == 'xml' or call['out_header'] is None or not m['out_header']:
+        return None
+    return [X.norm_value(desc, ('ref', c), v) for c, v in zip(m['out_header'], call['out_header'])]
+
+
+def oracle_response_case(check, w, app, prot, val, m, call, raw, resp, decoder):
+    """the property, client half: the response document denotes exactly the returned value"""
+    want = expected_return(w.desc, m, call)
+    want_h = expected_out_header(w.desc, m, call, prot)
+    try:
+        got, got_h = decode_response(w, app, prot, m, resp)
+        got = norm_decoded(w.desc, m, got)
+        if got_h is not None:
+            got_h = [X.norm_value(w.desc, ('ref', c), v) for c, v in zip(m['out_header'], got_h)]
+        ok = X.eq_value(got, want) and ((got_h is None) == (want_h is None)) and \
+            (want_h is None or (len(got_h) == len(want_h) and all(X.eq_value(a, b) for a, b in zip(got_h, want_h))))
+        err = None
+    except X.DecodeError as e:
+        ok, got, got_h, err = False, None, None, str(e)
+    if not ok:
+        key = 'C01|call|response-%s|%s|%s' % (decoder.split('/')[0], m['style'],
+                                                   ';'.join(shape_of(w.desc, r['ty'], v) or v[0] for r, v in zip(
+                                                       m['returns'], [call['ret']] if len(m['returns']) == 1 else (call['ret'][1] if m['returns'] else [])))[:120])
+        check.fail(key, '%s validator=%s %s [%s]: the function returned %r (out header %r) but the response %s %s' % (
+            prot, val, m['name'], m['style'], want, want_h, resp.decode('utf-8', 'replace')[:500],
+            ('does not follow the schema: ' + err) if err else 'denotes %r (out header %r)' % (got, got_h)),
+            call_replay(w, prot, val, m, call, {'request': raw.decode('utf-8', 'replace'), 'decoder': decoder}))
+        return False
+    return True
+
+
+# ------------------------------------------------------------------ oracle: WsgiApplication + zeep + the Spyne client
+def oracle_clients(check, tier):
+    from spyne.server.wsgi import WsgiApplication
+    rng = check.rng
+    n_worlds = 8 if tier == 'quick' else 60
+    per_method = 2 if tier == 'quick' else 4
+    stats = check.extra.setdefault('oracle', {'wsgi': 0, 'zeep': 0, 'spyne_client': 0, 'zeep_clients': 0})
+    for wi in range(n_worlds):
+        w = World(rng, model_only=False, header_ns_tns=False)
+        for prot in PROTS:
+            for val in VALIDATORS:
+                try:
+                    app, plan = w.app(prot, val)
+                except Exception as e:
+                    kinds = sorted(set(f['ty'][1]['k'] + ':' + f['kind'] for c in w.desc['classes'] for f in c['fields']
+                                       if f['ty'][0] == 'leaf' and f['kind'] != 'elem'))
+                    check.fail('C01|application|%s|%s|%s|%s' % (prot, val, type(e).__name__, ','.join(kinds)[:80]),
+                               'the Application cannot be built for %s validator=%s: %r' % (prot, val, e),
+                               {'kind': 'wsdl', 'universe': X.jsonable(w.desc), 'service': X.jsonable(w.svc), 'protocol': prot, 'validator': val})
+                    continue
+                wapp = WsgiApplication(app)
+                zs = None
+                if prot != 'xml':
+                    try:
+                        zs = Z.ZeepSide(app, wapp)
+                        stats['zeep_clients'] += 1
+                    except Exception as e:
+                        hdr = set(c for mm in w.svc['methods'] for c in mm['in_header'] + mm['out_header'])
+                        bare = set(f['ty'][1] for mm in w.svc['methods'] if mm['style'] != 'wrapped'
+                                   for f in (mm['params'] if mm['style'] == 'bare' else []) + mm['returns'] if f['ty'][0] == 'ref')
+                        why = 'header-class-is-also-a-bare-message' if hdr & bare else type(e).__name__
+                        check.fail('C01|wsdl|zeep-load|%s' % why,
+                                   'zeep cannot load the WSDL published for %s: %r' % (prot, e),
+                                   {'kind': 'wsdl', 'universe': X.jsonable(w.desc), 'service': X.jsonable(w.svc), 'protocol': prot, 'validator': val})
+                sc = Z.make_spyne_client(app, wapp, prot)
+                for m in w.svc['methods']:
+                    for _ in range(per_method):
+                        call = gen_call(rng, w.desc, m, header_none=False)
+                        wsgi_case(check, rng, w, app, wapp, plan, prot, val, m, call)
+                        stats['wsgi'] += 1
+                        if zs is not None:
+                            zeep_case(check, w, app, zs, plan, prot, val, m, call)
+                            stats['zeep'] += 1
+                        if m['style'] == 'wrapped':
+                            spyne_client_case(check, w, app, sc, plan, prot, val, m, call)
+                            stats['spyne_client'] += 1
+                        check.count(('oracle', prot, val, m['name'], repr(call)))
+
+
+def wsgi_case(check, rng, w, app, wapp, plan, prot, val, m, call):
+    from lxml import etree
+    doc, _ = request_doc(rng, w.desc, w.classes, app, prot, m, call)
+    raw = etree.tostring(doc, xml_declaration=True, encoding='UTF-8')
+    plan_call(plan, w.desc, w.classes, m, call)
+    try:
+        status, out = Z.wsgi_call(wapp, raw, Z.MIME[prot])
+    except Exception as e:
+        check.fail(call_key('wsgi-raised', prot, val, m, call, w.desc), 'WsgiApplication raised %r for %s' % (e, raw.decode()[:400]),
+                   call_replay(w, prot, val, m, call, {'request': raw.decode('utf-8', 'replace'), 'client': 'ref-encoder/wsgi'}))
+        return
+    log = captured_log(w.desc, w.classes, w.svc, plan)
+    obs = ('return', out) if status.startswith('200') else ('fault', status, out[:300].decode('utf-8', 'replace'))
+    if oracle_server_case(check, w, prot, val, m, call, raw, obs, log, 'ref-encoder/wsgi'):
+        oracle_response_case(check, w, app, prot, val, m, call, raw, out, 'ref-decoder/wsgi')
+
+
+def elem_fields(desc, cid):
+    fs = X.declaring(desc, cid)
+    return [f for _, f in fs if f['kind'] == 'elem'], [f for _, f in fs if f['kind'] == 'attr'], [f for _, f in fs if f['kind'] == 'data']
+
+
+def nil_complex_item(desc, ty, v, in_seq=False):
+    """does the value hold None as an item of a sequence of complex type?  (zeep renders xsd.Nil there as a
+    nil *child*, so such a request cannot be written with zeep)"""
+    if v[0] == 'none':
+        return in_seq                      # (zeep also fails on xsd.Nil items of several simple types)
+    if v[0] == 'list' and ty[0] == 'arr':
+        return any(nil_complex_item(desc, ty[1], x, True) for x in v[1])
+    if v[0] == 'obj':
+        for f, x in zip(X.flat_fields(desc, v[1]), v[2]):
+            if f['kind'] == 'data' and x[0] == 'none':
+                return True                # zeep cannot render simple content without a value
+            if f['kind'] == 'elem' and X.is_multi(f):
+                if x[0] == 'list' and any(nil_complex_item(desc, f['ty'], y, True) for y in x[1]):
+                    return True
+            elif nil_complex_item(desc, f['ty'], x):
+                return True
+    return False
+
+
+def zeep_norm(v):
+    """the identifications zeep itself makes when it parses (none of them Spyne's doing): an empty element is
+    None whatever its type ('' , b'', an empty wrapped array), and xsi:nil on a complex-typed element is ignored"""
+    if v in (('text', ''), ('bytes', b'')):
+        return ('none',)
+    if v[0] == 'list':
+        l = [zeep_norm(x) for x in v[1]]
+        return ('list', l) if l else ('none',)
+    if v[0] == 'obj':
+        # zeep ignores xsi:nil on complex-typed elements: a nil object is read as an object without members
+        l = [zeep_norm(x) for x in v[2]]
+        return ('obj', v[1], l) if any(x != ('none',) for x in l) else ('none',)
+    return v
+
+
+def zeep_case(check, w, app, zs, plan, prot, val, m, call):
+    import zeep.helpers
+    desc, classes = w.desc, w.classes
+    d = X.method_descriptor(app, m['name'])
+    if m['style'] == 'bare' and len(m['params']) == 1:
+        if nil_complex_item(desc, m['params'][0]['ty'], call['args'][0]):
+            return
+        if call['args'][0][0] == 'bytes':
+            return          # zeep base64-encodes a body element of type xs:base64Binary twice
+    else:
+        for p, a in zip(m['params'], call['args']):
+            if X.is_multi(p) and a[0] == 'list':
+                if any(nil_complex_item(desc, p['ty'], y, True) for y in a[1]):
+                    return
+            elif nil_complex_item(desc, p['ty'], a):
+                return
+    if call['in_header'] is not None and any(nil_complex_item(desc, ('ref', c), v) for c, v in zip(m['in_header'], call['in_header'])):
+        return
+    plan_call(plan, desc, classes, m, call)
+    args, kwargs = [], {}
+    try:
+        if m['style'] == 'bare' and len(m['params']) == 1:
+            p, a = m['params'][0], call['args'][0]
+            if p['ty'][0] == 'leaf':
+                args = [Z.leaf_to_zeep(a)]
+            else:
+                kwargs = zs.to_zeep(desc, classes, p['ty'], d.in_message, a)
+        else:
+            for p, a in zip(m['params'], call['args']):
+                kwargs[p['name']] = zs.field_to_zeep(desc, classes, p, d.in_message._type_info[p['name']], a)
+        if call['in_header'] is not None and m['in_header']:
+            hs = []
+            for c, v in zip(m['in_header'], call['in_header']):
+                el = zs.client.get_element('{%s}%s' % (desc['classes'][c]['ns'], desc['classes'][c]['name']))
+                hs.append(el(**zs.obj_to_zeep(desc, classes, v)))
+            kwargs['_soapheaders'] = hs
+        zs.sent = zs.received = None
+        # raw_response: zeep's own reply handling unwraps single children by heuristics and cannot parse a body
+        # element of simple type; the reply is parsed below with zeep's schema objects instead
+        with zs.client.settings(raw_response=True):
+            getattr(zs.client.service, m['name'])(*args, **kwargs)
+    except Exception as e:
+        check.fail(call_key('zeep-raised', prot, val, m, call, desc),
+                   '%s validator=%s %s [%s]: zeep could not write the call with arguments %r: %r (sent %s; received %s)' % (
+                       prot, val, m['name'], m['style'], call['args'], e, (zs.sent or b'')[:400], (zs.received or b'')[:300]),
+                   call_replay(w, prot, val, m, call, {'client': 'zeep'}))
+        return
+    log = captured_log(desc, classes, w.svc, plan)
+    if not oracle_server_case(check, w, prot, val, m, call, zs.sent or b'', ('return', zs.received), log, 'zeep'):
+        return
+    want = zeep_norm(expected_return(desc, m, call))
+    want_h = expected_out_header(desc, m, call, prot)
+    if want_h is not None:
+        want_h = [zeep_norm(x) for x in want_h]
+    ser = None
+    try:
+        from lxml import etree
+        hdrs, body = X.soap_open(prot, etree.fromstring(zs.received))
+        schema = zs.client.wsdl.types
+        ser = zeep.helpers.serialize_object(schema.get_element(body.tag).parse(body, schema), dict)
+        got = zeep_norm(zeep_result(zs, w, app, m, ser))
+        got_h = None
+        if hdrs is not None:
+            got_h = []
+            for c, h in zip(m['out_header'], hdrs):
+                hv = zeep.helpers.serialize_object(schema.get_element(h.tag).parse(h, schema), dict)
+                got_h.append(zeep_norm(X.norm_value(desc, ('ref', c), zs.from_zeep(desc, classes, ('ref', c), classes[c], hv))))
+            if len(hdrs) != len(m['out_header']):
+                got_h.append(('other', 'header-count', str(len(hdrs))))
+        err = None
+    except Exception as e:
+        got, got_h, err = None, None, repr(e)
+    ok = err is None and X.eq_value(got, want) and ((got_h is None) == (want_h is None)) and \
+        (want_h is None or (len(got_h) == len(want_h) and all(X.eq_value(a, b) for a, b in zip(got_h, want_h))))
+    if not ok:
+        key = 'C01|call|response-zeep|%s|%s' % (m['style'], ';'.join(
+            shape_of(desc, rr['ty'], v) or v[0] for rr, v in zip(m['returns'], [call['ret']] if len(m['returns']) == 1 else (call['ret'][1] if m['returns'] else [])))[:120])
+        check.fail(key, '%s validator=%s %s [%s]: the function returned %r (out header %r); zeep\'s schema %s the response %s [zeep object: %s]' % (
+            prot, val, m['name'], m['style'], want, want_h,
+            ('could not parse (%s)' % err) if err else 'reads %r (out header %r) from' % (got, got_h),
+            (zs.received or b'').decode('utf-8', 'replace')[:500], repr(ser)[:300]),
+            call_replay(w, prot, val, m, call, {'client': 'zeep'}))
+
+
+def zeep_result(zs, w, app, m, body):
+    """the response element as parsed by zeep's schema (serialize_object'ed) -> the neutral return value, normalised"""
+    desc, classes = w.desc, w.classes
+    d = X.method_descriptor(app, m['name'])
+    rets = m['returns']
+    if not rets:
+        return ('none',)
+    if m['style'] == 'wrapped':
+        keys = list(d.out_message._type_info.keys())
+        if not isinstance(body, dict):
+            return ('other', 'zeep-wrapper', repr(body)[:80])
+        vals = [X.norm_field_value(desc, r, zs.field_from_zeep(desc, classes, r, d.out_message._type_info[k], body.get(k)))
+                for r, k in zip(rets, keys)]
+        return vals[0] if len(rets) == 1 else ('list', vals)
+    r = rets[0]
+    return X.norm_value(desc, r['ty'], zs.from_zeep(desc, classes, r['ty'], d.out_message, body))
+
+
+def spyne_client_case(check, w, app, sc, plan, prot, val, m, call):
+    desc, classes = w.desc, w.classes
+    d = X.method_descriptor(app, m['name'])
+    plan_call(plan, desc, classes, m, call)
+    proc = getattr(sc.service, m['name'])
+    proc = proc if not isinstance(proc, type) else proc
+    try:
+        hdr = None
+        if call['in_header'] is not None and m['in_header'] and prot != 'xml':
+            hdr = [X.to_native(desc, classes, v) for v in call['in_header']]
+        sc.set_options(out_header=hdr)
+        proc = getattr(sc.service, m['name'])
+        native_args = []
+        for p, a in zip(m['params'], call['args']):
+            native_args.append(X.to_native(desc, classes, a))
+        r = proc(*native_args)
+    except Exception as e:
+        check.fail(call_key('spyne-client-raised', prot, val, m, call, desc),
+                   '%s validator=%s %s [%s]: the Spyne client could not complete the call with arguments %r: %r (sent %s)' % (
+                       prot, val, m['name'], m['style'], call['args'], e, (getattr(proc, 'sent', b'') or b'')[:400]),
+                   call_replay(w, prot, val, m, call, {'client': 'spyne'}))
+        return
+    log = captured_log(desc, classes, w.svc, plan)
+    c2 = dict(call)
+    if hdr is None:
+        c2['in_header'] = None
+    if not oracle_server_case(check, w, prot, val, m, c2, proc.sent, ('return', proc.received), log, 'spyne-client'):
+        return
+    rets = m['returns']
+    keys = list(d.out_message._type_info.keys())
+    if not rets:
+        got = ('none',)
+    elif len(rets) == 1:
+        got = X.norm_field_value(desc, rets[0], X.field_from_native(desc, classes, rets[0], r))
+    else:
+        got = ('list', [X.norm_field_value(desc, rr, X.field_from_native(desc, classes, rr, getattr(r, k, None))) for rr, k in zip(rets, keys)])
+    want = expected_return(desc, m, call)
+    ih = proc.ctx.in_header
+    want_h = expected_out_header(desc, m, call, prot)
+    if ih is None:
+        got_h = None
+    elif len(m['out_header']) == 1:
+        got_h = [X.norm_value(desc, ('ref', m['out_header'][0]), X.from_native(desc, classes, ('ref', m['out_header'][0]), ih))]
+    else:
+        got_h = [X.norm_value(desc, ('ref', c), X.from_native(desc, classes, ('ref', c), x)) for c, x in zip(m['out_header'], ih)]
+    if want_h == [('none',)]:
+        want_h = None
+    ok = X.eq_value(got, want) and ((got_h is None) == (want_h is None)) and \
+        (want_h is None or (len(got_h) == len(want_h) and all(X.eq_value(a, b) for a, b in zip(got_h, want_h))))
+    if not ok:
+        key = 'C01|call|response-spyne-client|%s|%s' % (m['style'], ';'.join(
+            shape_of(desc, rr['ty'], v) or v[0] for rr, v in zip(rets, [call['ret']] if len(rets) == 1 else (call['ret'][1] if rets else [])))[:120])
+        check.fail(key, '%s validator=%s %s: the function returned %r (out header %r); the Spyne client returned %r (in_header %r) from %s' % (
+            prot, val, m['name'], want, want_h, got, got_h, proc.received.decode('utf-8', 'replace')[:500]),
+            call_replay(w, prot, val, m, call, {'client': 'spyne'}))
